@@ -1,4 +1,4 @@
-import YakModel.Proofs.LeafInv
+import YakModel.Proofs.LeafLin
 /-!
 # `Leaf`: the theorems behind C01
 -/
@@ -30,5 +30,26 @@ theorem leaf_D1_counterexample :
     rw [hs] at h
     simp only [Option.map_some, Option.some.injEq] at h
     exact ⟨s, reach_exec Reach.init _ _ hs, 1, 1, 12, 30, by rw [h]; simp⟩
+
+/-- everything the induction over `Reach` carries: the state invariants, a history `H` of abstract
+    maps with the hindsight facts, and a time-indexed linearization of the recorded history -/
+def Good (c : Cfg) (s : State) : Prop :=
+  Inv1 c s ∧ ∃ H Seg extra, Inv2 s H ∧ Inv3 s H Seg extra
+
+theorem good_reach {c : Cfg} (hfix : c.fixD1 = true) {s : State} (h : Reach c s) : Good c s := by
+  refine reach_induction (P := Good c) ?_ ?_ s h
+  · exact ⟨inv1_init c, _, _, _, inv2_init, inv3_init⟩
+  · rintro s t s' _ ⟨I, H, Seg, extra, J, K⟩ hs
+    have I' := inv1_step I hs
+    obtain ⟨Seg', extra', K'⟩ := inv3_step hfix I I' J K hs
+    exact ⟨I', _, Seg', extra', inv2_step I J hs, K'⟩
+
+/-- C01: with the repaired reader every reachable history is linearizable. Linearization points:
+    insert = the permutation store, update = the value store, remove = the clear of the value cell,
+    every answer that leaves the map unchanged (get, remove miss, unique-insert hit) = an instant
+    inside the call at which the validated snapshot was current (known in hindsight). -/
+theorem leaf_linearizable (s : State) (h : Reach cfgFixed s) : Linearizable s := by
+  obtain ⟨_, H, Seg, extra, _, K⟩ := good_reach (c := cfgFixed) rfl h
+  exact K.linearizable
 
 end Yak.Proto.Leaf
